@@ -56,6 +56,69 @@ def make(i, tier):
     return seed, scn, models, skipped
 
 
+def shape_case(i):
+    """Hand-shaped machines around the places where an event is held for a join or handed over: an empty Map that ends a
+    branch / an iteration, a fan-out whose failure is caught (or retried) and is followed by another fan-out."""
+    seed = common.run_seed(8300000 + i)
+    rng = random.Random(seed)
+    fn = E.GM.FN_ARN
+    task = lambda f, **kw: dict({"Type": "Task", "Resource": fn + f}, **kw)
+    kind = ["empty-map-ends-branch", "empty-map-ends-iteration", "caught-fanout-then-fanout", "retried-fanout-then-fanout"][i % 4]
+    script = {"a": [{"ok": {"op": "tag"}, "delay": rng.choice([0.0, 0.5, 1.0])}],
+              "b": [{"ok": {"op": "tag"}, "delay": rng.choice([0.5, 2.0])}]}
+    empty = {"Type": "Map", "ItemsPath": "$.none", "ItemProcessor": {"StartAt": "X", "States": {"X": task("a", End=True)}}, "End": True}
+    if kind == "empty-map-ends-branch":
+        first = rng.choice([None, {"Type": "Pass", "Next": "M"}, task("a", ResultPath=None, Next="M")])
+        br = {"StartAt": "M", "States": {"M": empty}} if first is None else {"StartAt": "F", "States": {"F": first, "M": empty}}
+        d = {"StartAt": "P", "States": {"P": {"Type": "Parallel", "Branches": [br, {"StartAt": "B", "States": {"B": task("b", End=True)}}],
+                                             "ResultPath": "$.r", "Next": "Z"}, "Z": task("a", End=True)}}
+        inp = {"none": []}
+    elif kind == "empty-map-ends-iteration":
+        # (the outer Map is unbatched: a Map nested below a Map with MaxConcurrency batches is a recorded C05 finding)
+        d = {"StartAt": "O", "States": {"O": {"Type": "Map", "ItemsPath": "$.groups", "MaxConcurrency": 0,
+                                             "ItemProcessor": {"StartAt": "I", "States": {"I": {
+                                                 "Type": "Map", "ItemsPath": "$.items", "End": True,
+                                                 "ItemProcessor": {"StartAt": "X", "States": {"X": task("a", End=True)}}}}},
+                                             "ResultPath": "$.r", "Next": "Z"}, "Z": task("b", End=True)}}
+        inp = {"groups": rng.choice([[{"items": []}, {"items": [1]}], [{"items": []}], [{"items": [1, 2]}, {"items": []}, {"items": []}]])}
+    else:
+        err = "E.Bad"
+        script["bad"] = [{"err": err, "msg": "no", "delay": rng.choice([0.0, 0.5])}] * (1 if kind.startswith("retried") else 3) + \
+            [{"ok": {"op": "tag"}}]
+        fan1 = rng.choice([
+            {"Type": "Parallel", "Branches": [{"StartAt": "B", "States": {"B": task("bad", End=True)}},
+                                              {"StartAt": "S", "States": {"S": task("b", Next="S2"), "S2": {"Type": "Pass", "End": True}}}]},
+            {"Type": "Map", "ItemsPath": "$.items", "ItemProcessor": {"StartAt": "B", "States": {
+                "B": {"Type": "Choice", "Choices": [{"Variable": "$", "NumericEquals": 1, "Next": "Bad"}], "Default": "Ok"},
+                "Bad": task("bad", End=True), "Ok": task("b", End=True)}}}])
+        fan1.update({"ResultPath": "$.r1", "Next": "Q"})
+        if kind.startswith("caught"):
+            fan1["Catch"] = [{"ErrorEquals": ["States.ALL"], "ResultPath": "$.err", "Next": "Q"}]
+        else:
+            fan1["Retry"] = [{"ErrorEquals": [err], "IntervalSeconds": 1, "MaxAttempts": 2, "BackoffRate": 1.0}]
+        fan2 = rng.choice([
+            {"Type": "Parallel", "Branches": [{"StartAt": "U", "States": {"U": task("a", End=True)}},
+                                              {"StartAt": "V", "States": {"V": task("b", End=True)}}]},
+            {"Type": "Map", "ItemsPath": "$.items", "MaxConcurrency": rng.choice([0, 1]),
+             "ItemProcessor": {"StartAt": "U", "States": {"U": task("a", End=True)}}}])
+        fan2.update({"ResultPath": "$.r2", "End": True})
+        d = {"StartAt": "P", "States": {"P": fan1, "Q": fan2}}
+        inp = {"items": [1, 2, 3]}
+    cfg = E.policy_cfg(rng.choice(POLICIES))
+    cfg.update(execution_ttl=600, transport=rng.choice(["asyncio", "asyncio", "blocking"]))
+    scn = {"machines": {"m0": {"definition": d, "type": rng.choice(["STANDARD", "EXPRESS"]), "family": "shape:" + kind}},
+           "executions": [{"machine": "m0", "input": inp, "name": "e0", "at": 0.0}], "script": script,
+           "functions": sorted(script), "config": cfg}
+    return seed, scn, kind
+
+
+def run_shapes(i, extra):
+    seed, scn, kind = shape_case(i)
+    r = check(scn, seed)
+    r.setdefault("probes", {})["shape:" + kind] = 1
+    return r
+
+
 def run_one(i, extra):
     seed, scn, models, skipped = make(i, extra["tier"])
     return check(scn, seed, models, skipped)
@@ -214,6 +277,8 @@ def main(argv):
     for r in common.run_batch("checks.c03", "run_responses", range(500 if tier == "quick" else 20000), {"tier": tier}):
         rep.absorb(r)
     for r in common.run_batch("checks.c03", "run_children", range(400 if tier == "quick" else 16000), {"tier": tier}):
+        rep.absorb(r)
+    for r in common.run_batch("checks.c03", "run_shapes", range(160 if tier == "quick" else 6000), {"tier": tier}):
         rep.absorb(r)
     return rep.finish(
         rule="1-4 concurrent executions of independently generated machines (families %s) per simulated run under a "
